@@ -178,10 +178,12 @@ mod verif_bounded {
                     m.save_processed_message(p.clone()).unwrap(); s.save_processed_message(p).unwrap();
                 }
             } }
-            let scen = format!("groups g1,g2 each with messages / dedup records of epochs None,1,2,3; rollback of g1 to epoch {e}");
+            // several undecryptable events of one group wait for the same rollback (C02: every one of them is re-offered)
+            for (id, g) in [(200u8, 1u8), (201, 1), (210, 2)] { let p = pm(id, Some(g), None, ProcessedMessageState::Failed); m.save_processed_message(p.clone()).unwrap(); s.save_processed_message(p).unwrap(); }
+            let scen = format!("groups g1,g2 each with messages / dedup records of epochs None,1,2,3 and further Failed records without epoch (two of g1, one of g2); rollback of g1 to epoch {e}");
             let retry_m: BTreeSet<EventId> = m.find_failed_messages_for_retry(&gid(1)).unwrap().into_iter().collect();
             let retry_s: BTreeSet<EventId> = s.find_failed_messages_for_retry(&gid(1)).unwrap().into_iter().collect();
-            let retry_want: BTreeSet<EventId> = BTreeSet::from([eid(40 + 1)]); // g1, epoch None (i=0), state Failed (j=1)
+            let retry_want: BTreeSet<EventId> = BTreeSet::from([eid(40 + 1), eid(200), eid(201)]); // g1, epoch None (i=0), state Failed (j=1), and the two further ones
             expect(label, &scen, "find_failed_messages_for_retry(g1)", "SQLite", retry_s, retry_want.clone());
             expect(label, &scen, "find_failed_messages_for_retry(g1)", "memory", retry_m, retry_want);
             let inv_m: BTreeSet<EventId> = m.invalidate_messages_after_epoch(&gid(1), e).unwrap().into_iter().collect();
